@@ -42,6 +42,12 @@ UL = "src/pyhf/infer/intervals/upper_limits.py"
 IV = "src/pyhf/infer/intervals/__init__.py"
 
 
+# R2 / R3 know where `level`, the tolerances and the reversed grid are WRITTEN in the two scan functions; R6 (the automatic scan
+# walked into a recording root finder, two scenarios) and R5 / R4 (the grid scan on symbolic curves) decide the same clauses from
+# what the functions compute, whatever helper, argument order or options dictionary carries the values.
+DEFER = [(["C09.R2"], ["C09.R6"]), (["C09.R3"], ["C09.R5", "C09.R4"])]
+
+
 def run(ctx):
     repo = ctx.repo
     upper_limit = repo.func(UL, "upper_limit")
@@ -388,7 +394,8 @@ def _mk_world(repo, region, rec, cls_of):
             if isinstance(f, Closure):
                 for x in (lo, hi, (to_poly(lo) + to_poly(hi)) / 2, (to_poly(lo) * 3 + to_poly(hi)) / 4):  # a root finder evaluates the ends, then interior points: not in increasing order
                     n0 = len(rec["hypotest"])
-                    f.interp.call_function(f.node, [x] + args, {})
+                    fv_ = f.interp.call_function(f.node, [x] + args, {})
+                    rec["toms748"][-1].setdefault("f_values", []).append((str(to_poly(x)), fv_))
                     for h in rec["hypotest"][n0:]:
                         if h["poi"] != str(to_poly(x)):
                             rec.setdefault("moved", []).append((str(to_poly(x)), h["poi"]))
@@ -535,12 +542,22 @@ def _interpreted(ctx, r5, r6, repo):
         if len(tcs) != 6:
             probs.append(f"{len(tcs)} root searches, expected 1 observed + 5 expected")
         else:
-            if tcs[0]["bracket"] != ("LO", "HI") or tcs[0]["args"] != ["LEVEL", "0"]:
-                probs.append(f"observed root: bracket {tcs[0]['bracket']} args {tcs[0]['args']}, expected the POI bounds (LO, HI) and (LEVEL, 0)")
-            for j in range(1, 6):
-                if tcs[j]["args"] != ["LEVEL", str(j)]:
-                    probs.append(f"expected root {j}: args {tcs[j]['args']}, expected (LEVEL, {j})")
-                    break
+            if tcs[0]["bracket"] != ("LO", "HI"):
+                probs.append(f"observed root: bracket {tcs[0]['bracket']}, expected the POI bounds (LO, HI)")
+            for j in range(6):
+                # whatever way the level and the curve number travel (args=, a closure, a helper): the function the root
+                # finder gets is CLs_j(mu) - level at the mu it is asked for
+                for tag_, fv_ in tcs[j].get("f_values", []):
+                    try:
+                        okf_ = to_poly(fv_) == at(f"cls{j}<{tag_}>") - at("LEVEL")
+                    except Undecided:
+                        okf_ = False
+                    if not okf_:
+                        probs.append(f"root search {j} ({'observed' if j == 0 else 'expected curve %d' % j}): the function handed to the root finder gives {fv_ if not isinstance(fv_, Poly) else str(fv_)} at mu = {tag_}, not cls{j}<{tag_}> - LEVEL")
+                        break
+                else:
+                    continue
+                break
         if probs:
             ctx.violated(r6, ul, "automatic scan", "the automatic scan does not solve CLs(mu) = level for the caller's hypothesis test: " + probs[0], found=f"{len(probs)} deviation(s)")
         else:
@@ -558,6 +575,43 @@ def _interpreted(ctx, r5, r6, repo):
             ctx.holds(r6, f"{UL}::toms748_scan [second call, data refilled in place]", f"{len(second)} fresh hypotest evaluations on the current data")
     except errs as e:
         ctx.unrecognised(r6, ul, "upper_limit (automatic)", f"not interpretable: {type(e).__name__}: {e}")
+    # ---------------------------------------------------------------- toms748_scan directly: tolerances, and bracket extension at a level that is NOT 0.05
+    rec = {"hypotest": [], "interp": [], "toms748": []}
+    region = AutoRegion()
+    region.update({"LO": F_(1), "HI": F_(10), "LEVEL": F_(1, 5), "ATOL": F_(1, 100), "RTOL": F_(1, 1000)})
+
+    def cls_steps(poi, region=region):
+        v = poi.evalf(region)
+        return [F_(1, 2) if v < F_(3, 4) else (F_(1, 10) if v < 15 else F_(1, 100))] * 6
+
+    try:
+        from ..alg import RaisedInFragment
+        w = mk_world(region, rec, cls_steps)
+        MODEL = Obj("MODEL", {"config": Obj("config", {"poi_name": "mu"})})
+        w.ext = None
+        w.call_func(toms, [[at("t0"), at("t1")], MODEL, at("LO"), at("HI")], {"level": at("LEVEL"), "atol": at("ATOL"), "rtol": at("RTOL")})
+        tcs = rec["toms748"]
+        probs = []
+        if len(tcs) != 6:
+            probs.append(f"{len(tcs)} root searches, expected 1 observed + 5 expected")
+        else:
+            for j, tc in enumerate(tcs):
+                if str(to_poly(tc["xtol"])) != "ATOL" if tc["xtol"] is not None else True:
+                    probs.append(f"root search {j}: the absolute tolerance the caller asked for (atol) is not what the root finder gets as xtol ({tc['xtol']})")
+                    break
+                if str(to_poly(tc["rtol"])) != "RTOL" if tc["rtol"] is not None else True:
+                    probs.append(f"root search {j}: the relative tolerance the caller asked for (rtol) is not what the root finder gets ({tc['rtol']})")
+                    break
+            if not probs and (tcs[0]["lo_value"], tcs[0]["hi_value"]) != (F_(1, 2), F_(10)):
+                probs.append(f"with level = 0.2, CLs = 0.1 at both given bounds [1, 10] (0.5 below 0.75, 0.01 beyond 15): the lower bound has to be halved once and the upper bound kept, the observed root is searched in [{tcs[0]['lo_value']}, {tcs[0]['hi_value']}] -- the bracket is extended by comparing with something else than the caller's level")
+        if probs:
+            ctx.violated(r6, toms, "toms748_scan, level 0.2 with tolerances", probs[0], expected="xtol = atol, rtol = rtol in all six searches; observed bracket [0.5, 10]", found=probs[0])
+        else:
+            ctx.holds(r6, f"{UL}::toms748_scan [interpreted; level 0.2, bounds not bracketing at first]", "caller's tolerances reach every root search; the bracket is extended by comparison with the caller's level")
+    except RaisedInFragment as e:
+        ctx.violated(r6, toms, "toms748_scan, level 0.2 with tolerances", f"raises {e.exc_name}")
+    except errs as e:
+        ctx.unrecognised(r6, toms, "toms748_scan (level 0.2, tolerances)", f"not interpretable: {type(e).__name__}: {e}")
     # ---------------------------------------------------------------- automatic, curves crossing at different places
     rec = {"hypotest": [], "interp": [], "toms748": []}
     region = AutoRegion()
